@@ -10,8 +10,10 @@
      HShlibDigests   the digests of the shared libraries of the compiler's sysroot, concatenated
      HArguments      OsStr::hash of ONE string: the arguments as (flag, value) pairs, minus the excluded flags
                      (--extern, -L, --out-dir; --target when it names a json file), the `--cfg` pairs sorted and
-                     moved to the end, each flag and each value followed by `arg_terminator`
-                     (empty before the fix: plain concatenation, the cause of the argument-boundary finding)
+                     moved to the end, each flag and each value followed by `arg_terminator` — which is EMPTY in
+                     the code as it is: the pieces are concatenated without any delimiter, so the string does
+                     not determine them (finding C05-S22, recorded; a terminator cannot be added without
+                     changing the pre-image pinned by the existing unit test test_generate_hash_key)
      HFileDigests    the digests of: the source files of dep-info (sorted by path), the --extern files (sorted by
                      path), the static libraries, the target json file — concatenated, no counts
      HEnvDeps        sorted `# env-dep` entries: hash(var) then `=` hash(value) for a set variable, the unset
